@@ -159,7 +159,7 @@ impl Ast {
 const DOTLIKE: &[&str] = &[".", "(?s:.)", "[^\\n]", "(?-u:.)", "(?s-u:.)", "[^\\r\\n]"];
 
 pub const STR_CHARS: &[char] = &[
-    'a', 'b', 'c', 'x', '0', '1', '-', '_', '.', '*', ' ', '\n', 'é', 'ß', 'λ', 'σ', 'ς', 'Σ', '\u{212A}', 'ſ', '日', '😀', 'A', 'k', 's',
+    'a', 'b', 'c', 'x', '0', '1', '-', '_', '.', '*', ' ', '\n', 'é', 'ß', 'λ', 'σ', 'ς', 'Σ', '\u{212A}', 'ſ', '日', '😀', 'A', 'k', 's', '\u{a0}', '\u{2003}',
 ];
 pub const ASCII_CHARS: &[char] = &['a', 'b', 'c', 'x', '0', '1', '-', '_', '.', '*', ' ', '\n', 'A', 'k'];
 
@@ -348,8 +348,14 @@ pub fn lexing_defs() -> BoxedStrategy<DefSpec> {
         2 => mk(false, false, false, true, false),
         2 => mk(false, true, true, true, true),
     ]
+    .prop_filter("pattern over the determinization budget", |d| crate::reference::cost_ok(d, COST_LIMIT))
     .boxed()
 }
+
+/// Budget of the generator-side cost gate (bytes of per-pattern DFA), see `reference::cost_ok`. Measured with
+/// `costprobe`: 0-2 of 600 generated definitions per family exceed it; every definition within it derives in < 0.3 s,
+/// one beyond it (`(?:\\p{Greek}|(?-u:(?-u:.{3}){3})){2,}`) kept the derive busy for more than ten minutes.
+pub const COST_LIMIT: usize = 1 << 20;
 
 // ---------------------------------------------------------------------------------------------
 // C08: conflict family - tiny alphabet, priorities default or from a tiny range so that ties and
@@ -524,8 +530,38 @@ pub const META_CHARS: &[char] = &[
     's', 'S', 'i', 'I', 'é', 'É', 'ß', 'σ', 'ς', 'Σ', '\u{212A}', 'ſ', 'İ', 'ı', '日', 'ǅ', 'z', '0',
 ];
 
+/// Every char of the BMP (plus Deseret, Osage, Adlam, ...) whose simple case folding class, as the regex crate computes it,
+/// holds more than the char itself: lower/upper/titlecase letters, Kelvin/Angstrom signs, long s, Greek variants, ...
+pub fn cased_pool() -> &'static [char] {
+    static POOL: std::sync::OnceLock<Vec<char>> = std::sync::OnceLock::new();
+    POOL.get_or_init(|| {
+        use regex_syntax::hir::{ClassUnicode, ClassUnicodeRange};
+        let mut v = Vec::new();
+        for cp in (0x80u32..0x1_0000).chain(0x1_0400..0x1_0500).chain(0x1_0C80..0x1_0D00).chain(0x1_1880..0x1_18E0).chain(0x1_E900..0x1_E960) {
+            let Some(c) = char::from_u32(cp) else { continue };
+            let mut cls = ClassUnicode::new([ClassUnicodeRange::new(c, c)]);
+            if cls.try_case_fold_simple().is_err() {
+                continue;
+            }
+            let n: u32 = cls.iter().map(|r| r.end() as u32 - r.start() as u32 + 1).sum();
+            if n > 1 {
+                v.push(c);
+            }
+        }
+        v
+    })
+}
+
+/// a char with a non-trivial case folding, index mapped monotonically (shrinks towards the start of the pool)
+pub fn cased_char() -> BoxedStrategy<char> {
+    any::<u16>().prop_map(|i| {
+        let pool = cased_pool();
+        pool[(i as usize * pool.len()) >> 16]
+    }).boxed()
+}
+
 pub fn literal_defs() -> BoxedStrategy<DefSpec> {
-    let str_lit = vec(select(META_CHARS), 1..=5).prop_map(|cs| LitSpec::str(cs.into_iter().collect::<String>()));
+    let str_lit = vec(prop_oneof![6 => select(META_CHARS), 1 => cased_char()], 1..=5).prop_map(|cs| LitSpec::str(cs.into_iter().collect::<String>()));
     let byte_lit = vec(prop_oneof![3 => any::<u8>(), 2 => select(&b"aZk.*(\\[\x00\x7f\x80\xff\xc3\xa9"[..])], 1..=5).prop_map(LitSpec::bytes);
     let tok = (prop_oneof![3 => str_lit, 2 => byte_lit], prop::bool::weighted(0.5)).prop_map(|(lit, ic)| {
         let mut p = PatSpec::token(lit);
@@ -729,6 +765,7 @@ pub fn subpattern_defs() -> BoxedStrategy<SubCase> {
             }
             SubCase { def: DefSpec { utf8, subpatterns, skips, variants }, must_reject, max_ref_depth: max_depth }
         })
+        .prop_filter("pattern over the determinization budget", |c| crate::reference::cost_ok(&c.def, COST_LIMIT))
         .boxed()
 }
 
